@@ -4,7 +4,7 @@ Reads $AV_REPO/src/autobahn/websocket/protocol.py (AV_REPO defaults to /repo) in
   * by IMPORT: CLOSE_STATUS_CODES_ALLOWED, the CLOSE_STATUS_CODE_* values used by the failure paths, the STATE_* and
     MESSAGE_TYPE_* constants;
   * by AST: every integer comparison of the functions on the receive path (processData, onCloseFrame,
-    processControlFrame, onMessageFrameBegin, sendMessage, sendPong, onFrameBegin/Data/End).  For each function the
+    processControlFrame, onMessageFrameBegin, sendMessage, sendPreparedMessage, sendPong, onFrameBegin/Data/End).  For each function the
     sequence of comparisons (operands with literals abstracted) must be exactly the expected one; operator and
     literals are emitted as a Coq boolean function.  Anything unrecognised -> TranslatorError (fail closed).
 
@@ -138,6 +138,7 @@ EXPECTED = {
     "onFrameData": [(("cur_opcode", "#"), "fd_is_ctl")],
     "onFrameEnd": [(("cur_opcode", "#"), "fe_is_ctl")],
     "sendPong": [(("l", "#"), "sp_too_long")],
+    "sendPreparedMessage": [(("#", "self_maxMessagePayloadSize", "payload_len"), "spm_limit")],
     "sendMessage": [
         (("#", "self_maxMessagePayloadSize", "payload_len"), "sm_limit"),
         (("self_autoFragmentSize", "#"), None),
